@@ -93,6 +93,19 @@ def frame(obj, *, ascii_escape=False, header_order="LT", extra_headers=()) -> by
 # --------------------------------------------------------------------------
 # Pool
 # --------------------------------------------------------------------------
+def _scalar_globals():
+    """Module-level bool/int/str/None switches of the package (the state a forked worker would keep to itself)."""
+    import sys
+
+    out = {}
+    for mn, mod in list(sys.modules.items()):
+        if mn == "fortls" or mn.startswith("fortls."):
+            for name, val in list(vars(mod).items()):
+                if not name.startswith("__") and (val is None or type(val) in (bool, int, str, float)):
+                    out[(mod, name)] = val
+    return out
+
+
 class _FakeResult:
     def __init__(self, fn, args):
         import pickle
@@ -102,7 +115,14 @@ class _FakeResult:
             # like the real pool: arguments and result cross a process boundary by pickle, so the
             # task cannot mutate the parent's objects and results share nothing with each other
             args = pickle.loads(pickle.dumps(args))
-            self.val, self.exc = pickle.loads(pickle.dumps(fn(*args))), None
+            saved = _scalar_globals()
+            try:
+                self.val, self.exc = pickle.loads(pickle.dumps(fn(*args))), None
+            finally:
+                # ... and what a task assigns to module-level switches (set_keyword_ordering) stays in the worker
+                for (mod, name), val in saved.items():
+                    if getattr(mod, name, val) is not val:
+                        setattr(mod, name, val)
         except Exception as e:  # what Pool would re-raise from get()
             self.val, self.exc = None, e
 
